@@ -88,12 +88,12 @@ def run(shard, rec):
         if bool(got) != exp_sqr:
             rec.violation(f'{fname}: is_sqr({ai}) = {got}, expected {exp_sqr}', {'mechanism': 'is_sqr'}, {'case': case}, case=case)
         if exp_sqr:
-            # watchdog: a square root in these fields takes well under a millisecond; 20 s without an answer is reported as non-termination
-            # (generous wall-clock bound, > 10^4 times the normal duration even on a loaded machine), any exception as a failure of sqrt
+            # watchdog: a square root in these fields takes well under a millisecond; 20 s of CPU time without an answer is reported as non-termination
+            # (CPU-time bound, > 10^4 times the normal duration, not affected by machine load), any exception as a failure of sqrt
             def _alarm(signum, frame):
-                raise TimeoutError('sqrt did not return within 20 s')
-            old_h = signal.signal(signal.SIGALRM, _alarm)
-            signal.alarm(20)
+                raise TimeoutError('sqrt did not return within 20 s of CPU time')
+            old_h = signal.signal(signal.SIGVTALRM, _alarm)
+            signal.setitimer(signal.ITIMER_VIRTUAL, 20)       # 20 s of this process's own CPU time: independent of the load of the machine
             try:
                 r = a.sqrt()
             except TimeoutError as ex:
@@ -106,9 +106,19 @@ def run(shard, rec):
                 rec.violation(f'{fname}: sqrt({ai}) of a square raised {type(ex).__name__}: {ex}', {'mechanism': 'sqrt-raises'}, {'case': case}, case=case)
                 continue
             finally:
-                signal.alarm(0)
-                signal.signal(signal.SIGALRM, old_h)
+                signal.setitimer(signal.ITIMER_VIRTUAL, 0)
+                signal.signal(signal.SIGVTALRM, old_h)
             rec.count('sqrt_checked')
+            if type(r) is field and ai % 3 == 0:
+                # the caller owns the result: using it with an in-place operator must not affect a later request for the same root
+                r0 = field(r.value)
+                r += 1
+                r *= r
+                again = field(ai).sqrt()
+                rec.count('sqrt_after_inplace_use')
+                if type(again) is not field or ref.elt(F, again * again) != ea:
+                    rec.violation(f'{fname}: sqrt({ai}) asked again after the first result was changed in place gives {again!r}', {'mechanism': 'sqrt-result-shared'}, {'case': case}, case=case)
+                r = r0
             if type(r) is not field or ref.elt(F, r * r) != ea:
                 rec.violation(f'{fname}: sqrt({ai})^2 = {ref.elt(F, r * r) if type(r) is field else r!r} != {ea}', {'mechanism': 'sqrt'}, {'case': case}, case=case)
             if F.is_zero(ea):
